@@ -153,6 +153,21 @@ CHECKS = {
         technique="runtime reference-model monitor over recorded reader sessions (list-slice model), exhaustive small scope",
         design="DESIGN.md section 2, C11",
     ),
+    "C12": dict(
+        script="checks/c12.py",
+        level="exploration",
+        text="Three monitors. (1) ThreadSanitizer stress: fresh processes x 2/4/16 threads released by a barrier, each with its own generators "
+             "(quadrature-heavy modes incl. one whose QNG really returns GSL_ETOL, background, gA), tapes and events; the harness interposes "
+             "gsl_set_error_handler(_off)/gsl_integration_qng so that the accesses libgsl makes to its process-wide handler become visible "
+             "to TSan through a shadow variable. (2) Deterministic enumeration of every interleaving of the four schedule points (hook in gauss.cc) "
+             "of two threads - 70 schedules for one call each, 12870 for two - with trace invariants I1 (handler off while integrating), I2 (handler "
+             "restored at quiescence), I3 (process default handler never invoked, with an integrand on which QNG really fails). (3) Every thread's "
+             "event stream equals the stream of the same configuration run alone.",
+        note="libgsl uninstrumented (shadow variable models its global); interleavings distinguished at hook points and at TSan's happens-before "
+             "granularity; blocked schedules (lock) are infeasible, not violations.",
+        technique="ThreadSanitizer + deterministic schedule enumeration at hooked yield points with trace-invariant monitors + sequential-equivalence oracle",
+        design="DESIGN.md section 2, C12",
+    ),
     "C13": dict(
         script="checks/c13.py",
         level="fault_enumeration",
